@@ -27,6 +27,7 @@ SCALAR_KINDS = ["u8", "u64", "i32", "usize", "bool"]
 BASE_KINDS = ["u64", "s3", "slice", "cb", "ptr_const", "ptr_mut", "bool"]
 ALL_BASE_KINDS = ["u8", "u64", "i32", "usize", "bool", "s3", "slice", "cb", "ptr_const", "ptr_mut"]
 EXT_KINDS = ["cb_u64", "fnptr"]
+GENERIC_KINDS = ["pair"]  # Pair<CSliceRef<u8>, usize>: a by-value user struct with two type parameters
 MORE_CB_KINDS = ["cb_p2", "cb_p3"]  # OpaqueCallback<Point2>, OpaqueCallback<Addr>: further struct element types
 RECVS = ["ref", "mut", "own"]
 RETS = ["void", "u64", "bool", "s3", "self", "vptr", "cvptr"]  # vptr/cvptr: raw `void *` / `const void *` results
@@ -144,8 +145,9 @@ def c17_quick_models():
     """One-factor-at-a-time slice around baseline(); every entry is (factor label, model)."""
     out = [("baseline", baseline())]
     # F1 argument lists: every kind alone, 0..4 arguments, mixed and same-typed long lists
-    for k in ALL_BASE_KINDS + EXT_KINDS + MORE_CB_KINDS:
+    for k in ALL_BASE_KINDS + EXT_KINDS + MORE_CB_KINDS + GENERIC_KINDS:
         out.append(("arg:" + k, single([meth("alpha_call", "ref", [k], "u64")])))
+    out.append(("args:pair_mid", single([meth("alpha_call", "mut", ["u64", "pair", "slice"], "u64")])))
     for al in [[]] + LONG_ARGLISTS:
         out.append(("args:%d" % len(al), single([meth("alpha_call", "mut", al, "u64")])))
     # F2 receiver x return
